@@ -30,7 +30,7 @@ I0 == [present |-> FALSE, cfg |-> NoCfg,
        vc |-> {}, st |-> NoStop, halted |-> FALSE,
        burst |-> 0, burstT |-> -1,
        preSince |-> -1,
-       inflight |-> {}, lastEv |-> "", note |-> "", why |-> "", readyAt |-> -1, owes |-> FALSE, cut |-> FALSE, hung |-> {}, verifyAt |-> -1, nbo |-> 0, nrs |-> 0, rnds |-> {}, appCancel |-> FALSE, servedSince |-> 0, hadLid |-> FALSE, reconnAt |-> -1]
+       inflight |-> {}, lastEv |-> "", note |-> "", why |-> "", readyAt |-> -1, owes |-> FALSE, cut |-> FALSE, hung |-> {}, verifyAt |-> -1, nbo |-> 0, nrs |-> 0, rnds |-> {}, appCancel |-> FALSE, hpend |-> FALSE, servedSince |-> 0, hadLid |-> FALSE, reconnAt |-> -1]
 
 O0 == [scn |-> "", ended |-> TRUE, H |-> 1000000, TTL |-> 3000000, L |-> 0, PT |-> 5000000,
        rec |-> [k \in Keys |-> NoRec], tokens |-> {}, pend |-> {},
@@ -408,7 +408,8 @@ H_health(o, e) ==
       N == HealthThreshold(x.cfg.hn)
       cu == IF e.res THEN 0 ELSE x.consecU + 1
       v1 == IF ~HealthDeadlineOK(e.dl) THEN {V("C12", "health_check_context_deadline", e.i, e)} ELSE {}
-      y == [x EXCEPT !.consecU = cu, !.hdue = ~e.res /\ cu >= N, !.hskip = @ \/ ~e.res \/ e.hang]
+      \* (a slow or hanging check delivers its result when it returns: health_done)
+      y == [x EXCEPT !.consecU = cu, !.hdue = ~e.res /\ cu >= N, !.hskip = @ \/ ~e.res \/ e.hang, !.hpend = e.slow]
       \* a checker that ignores its context and hangs stalls the heartbeat loop: the instance is cut off by user code
       y2 == IF e.hang THEN [y EXCEPT !.cut = TRUE] ELSE y
   IN R([SetI(o, e.i, y2) EXCEPT !.unhealthy = @ \/ ~e.res, !.faulty = @ \/ e.hang, !.hard = @ \/ e.hang], v1)
@@ -494,7 +495,7 @@ H_snap(o, e) ==
       v05 == IF y.claim /\ quiet /\ (e.tok # y.ttok \/ e.stok # y.ttok) THEN {V("C05", "token_accessors_differ_from_record_token", i, e)} ELSE {}
       v08 == IF quiet /\ y.cfg.cb /\ ~Balanced(y.claim, e.np, e.nd)
              THEN {V("C08", "callbacks_do_not_mirror_leadership:" \o y.why, i, e)} ELSE {}
-      v12 == IF y.hdue /\ quiet /\ (y.claim \/ (y.cfg.cb /\ e.nd <= y.ndRise))
+      v12 == IF y.hdue /\ ~y.hpend /\ quiet /\ (y.claim \/ (y.cfg.cb /\ e.nd <= y.ndRise))
              THEN {V("C12", "not_demoted_at_configured_failure_count", i, e)} ELSE {}
       v19 == IF quiet /\ ~y.claim /\ y.ctxOpen # {} THEN {V("C19", "promotion_context_outlives_term", i, e)} ELSE {}
       \* first refresh attempt after the loss completed: must be demoted now (C03)
@@ -508,7 +509,7 @@ H_snap(o, e) ==
       vver == IF quiet /\ y.verify = "failed" /\ y.claim /\ ~vpend
               THEN {V("C11", "kept_leadership_although_verification_read_did_not_show_ownership", i, e)} ELSE {}
       z == [y EXCEPT !.hadLid = @ \/ e.slid # "",
-                     !.hdue = IF quiet THEN FALSE ELSE @,
+                     !.hdue = IF quiet /\ ~y.hpend THEN FALSE ELSE @,
                      !.lostAt = IF v03 # {} THEN -1 ELSE @,
                      !.failRun = IF v03b # {} THEN 0 ELSE @,
                      !.verify = IF quiet /\ @ = "failed" /\ ~vpend THEN "none" ELSE @]
@@ -559,6 +560,7 @@ Handle(o, e) ==
   ELSE IF ev = "closed" THEN H_closed(o, e)
   ELSE IF ev = "script_miss"          \* a model behaviour being replayed could not be followed: the rest of the run is not paced by the script
        THEN R([o EXCEPT !.faulty = TRUE, !.hard = TRUE, !.I = [i \in Ids |-> [o.I[i] EXCEPT !.cut = TRUE]]], {})
+  ELSE IF ev = "health_done" THEN R(SetI(o, e.i, [o.I[e.i] EXCEPT !.hpend = FALSE]), {})
   ELSE IF ev = "start_ctx_cancelled" THEN R(SetI(o, e.i, [o.I[e.i] EXCEPT !.appCancel = TRUE, !.halted = TRUE, !.ready = FALSE]), {})
   ELSE IF ev = "partition" THEN H_partition(o, e)
   ELSE IF ev = "heal" THEN H_heal(o, e)
